@@ -194,26 +194,55 @@ func (a *Antispammer) Maintenance() {
 
 	allUnbanned := true
 	for sourceID, source := range a.sources {
-		x := int(source.counter.Load())
+		threshold := a.sourcesThresholds[sourceID]
 
-		if x == 0 {
+		// IsSpam changes the counter without holding a.mu (it counts, bans and
+		// resets a new source): the new value is stored only if the counter still
+		// holds the value it was computed from, otherwise it is computed again.
+		var (
+			x        int
+			idle     bool
+			unbanned bool
+		)
+		for {
+			old := source.counter.Load()
+			x = int(old)
+			idle, unbanned = x == 0, false
+			if idle {
+				break
+			}
+
+			isMore := x >= threshold
+			x -= threshold
+			if x < 0 {
+				x = 0
+			}
+
+			if isMore && x < threshold {
+				// the remainder was counted while the source was banned: it must not
+				// count towards the next ban
+				x = 0
+				unbanned = true
+			}
+
+			stored := x
+			if stored > a.unbanIterations*threshold {
+				stored = a.unbanIterations * threshold
+			}
+
+			if source.counter.CompareAndSwap(old, int32(stored)) {
+				break
+			}
+		}
+
+		if idle {
 			delete(a.sources, sourceID)
 			delete(a.sourcesThresholds, sourceID)
 			a.banMetric.DeleteLabelValues(source.name)
 			continue
 		}
 
-		threshold := a.sourcesThresholds[sourceID]
-		isMore := x >= threshold
-		x -= threshold
-		if x < 0 {
-			x = 0
-		}
-
-		if isMore && x < threshold {
-			// the remainder was counted while the source was banned: it must not
-			// count towards the next ban
-			x = 0
+		if unbanned {
 			a.banMetric.WithLabelValues(source.name).Dec()
 			a.logger.Info("source has been unbanned", zap.Any("id", sourceID))
 		}
@@ -221,12 +250,6 @@ func (a *Antispammer) Maintenance() {
 		if x >= threshold {
 			allUnbanned = false
 		}
-
-		if x > a.unbanIterations*threshold {
-			x = a.unbanIterations * threshold
-		}
-
-		source.counter.Swap(int32(x))
 	}
 
 	if allUnbanned {
